@@ -53,6 +53,8 @@ mod metrics_regression;
 pub mod param_guard;
 pub mod prelude;
 pub mod traits;
+#[cfg(linfa_verif)]
+pub mod verif_hooks;
 
 pub use composing::*;
 pub use dataset::{Dataset, DatasetBase, DatasetPr, DatasetView, Float, Label};
